@@ -41,6 +41,7 @@ func main() {
 		{"SnapSmallGen.v", genSnapSmall},
 		{"KmpDedupGen.v", genKmpDedup},
 		{"CleanupRingGen.v", genCleanupRing},
+		{"SplitTailGen.v", genSplitTail},
 		{"TmsData.v", genTmsData},
 		{"CliGen.v", genCli},
 	}
